@@ -187,6 +187,10 @@ impl Metadata {
 
         let dot_build = metadata.project_dot_build_path();
         if !dot_build.exists() {
+            // Simulation seam: the window between the existence check and the creation.
+            #[cfg(all(feature = "verif", not(target_family = "wasm")))]
+            veryl_path::sim::point("meta.mkdir", &dot_build)
+                .map_err(|x| MetadataError::file_io(x, &dot_build))?;
             ignore_already_exists(fs::create_dir(&dot_build))
                 .map_err(|x| MetadataError::file_io(x, &dot_build))?;
         }
